@@ -203,6 +203,7 @@ class Inotify:
         else:
             self._add_watch(path, event_mask)
         self._moved_from_events: dict[int, InotifyEvent] = {}
+        self._moved_out_candidate: tuple[int, bytes] | None = None
 
     @property
     def event_mask(self) -> int:
@@ -358,12 +359,24 @@ class Inotify:
             for wd, mask, cookie, name in Inotify._parse_event_buffer(event_buffer):
                 if wd == -1:
                     continue
-                wd_path = self._path_for_wd[wd]
+                if self._moved_out_candidate is not None:
+                    # The kernel queues the two halves of a rename back to back: a directory whose IN_MOVED_FROM is
+                    # followed by anything but its IN_MOVED_TO in a directory we watch has left the tree - stop watching it.
+                    pending_cookie, pending_path = self._moved_out_candidate
+                    self._moved_out_candidate = None
+                    if not (mask & InotifyConstants.IN_MOVED_TO and cookie == pending_cookie and wd in self._path_for_wd):
+                        self._forget_tree(pending_path)
+                wd_path = self._path_for_wd.get(wd)
+                if wd_path is None:
+                    # the last words of the kernel about a watch that was dropped above
+                    continue
                 src_path = os.path.join(wd_path, name) if name else wd_path  # avoid trailing slash
                 inotify_event = InotifyEvent(wd, mask, cookie, name, src_path)
 
                 if inotify_event.is_moved_from:
                     self.remember_move_from_event(inotify_event)
+                    if self.is_recursive and inotify_event.is_directory:
+                        self._moved_out_candidate = (cookie, src_path)
                 elif inotify_event.is_moved_to:
                     move_src_path = self.source_for_move(inotify_event)
                     if move_src_path in self._wd_for_path:
@@ -410,6 +423,15 @@ class Inotify:
                     event_list.extend(_recursive_simulate(src_path))
 
         return event_list
+
+    def _forget_tree(self, path: bytes) -> None:
+        """Drops the watches of a directory that has left the watched tree, and of everything below it."""
+        prefix = path + os.path.sep.encode()
+        for watched in [p for p in self._wd_for_path if p == path or p.startswith(prefix)]:
+            wd = self._wd_for_path.pop(watched)
+            if self._path_for_wd.get(wd) == watched:
+                del self._path_for_wd[wd]
+                inotify_rm_watch(self._inotify_fd, wd)
 
     def _close_resources(self) -> None:
         for fd in (self._inotify_fd, self._kill_r, self._kill_w):
